@@ -424,6 +424,13 @@ def run(R, env):
                             return True, coll    # all(==) true => all equal
             return None
         cmps = [(bi, atom, denom_cmp(atom[1]) or denom_quant(atom[1])) for bi, atom in h.atoms() if atom[0] == "bool" and (denom_cmp(atom[1]) is not None or denom_quant(atom[1]) is not None)]
+        if not cmps:
+            # the same-denom check fused with the summation in a helper / fold closure (`try_fold(first, |total, p| {
+            # ensure!(p.amount.denom == total.denom, ..); total.amount += ..})`): only the in-line check is modelled
+            is_denom = lambda x: x[0] == "field" and x[2] == "denom"
+            deep_denoms = [1 for c_, p_ in inline_walk(prog, h, 3) if p_ for _, atom in c_.atoms() if atom[0] == "bool" and atom[1][0] == "call" and atom[1][1] in EQ and len(atom[1][2]) == 2 and is_denom(atom[1][2][0]) and is_denom(atom[1][2][1])]
+            if deep_denoms:
+                R.set_undecided(["C07.R7"], "the same-denom check of recover lives in a helper / fold closure; only the in-line comparison with packets[0] is modelled")
         R.ob("C07.R7", "recover:denom-comparison", len(cmps) == 1, "found %d comparisons of packets[1..].amount.denom with packets[0].amount.denom" % len(cmps), fn=hk)
         for bi, atom, (pol, pk_term) in cmps:
             rej = atom[2][not pol]
